@@ -110,13 +110,13 @@ Section Proofs2.
   Definition pa_apply (kernel : vec -> vec) (glob : option mat) (x : vec) : vec :=
     kernel (match glob with None => x | Some G => Happly G x end).
   Definition pa_compose_glob (glob : option mat) (A : mat) : option mat :=
-    Some (match glob with None => A | Some G => Mm 4 G A end).
+    Some (match glob with None => A | Some G => if src_pa_compose_self_left then Mm 4 G A else Mm 4 A G end).
 
   Lemma polyaffine_compose_apply_lemma kernel glob A x :
     (forall G, glob = Some G -> WfAff 3 3 G) -> WfAff 3 3 A -> length x = 3 ->
     pa_apply kernel (pa_compose_glob glob A) x = pa_apply kernel glob (Happly A x).
   Proof.
-    intros HG HA Hx. unfold pa_apply, pa_compose_glob. destruct glob as [G|]; [|reflexivity].
+    intros HG HA Hx. unfold pa_apply, pa_compose_glob, src_pa_compose_self_left. destruct glob as [G|]; [|reflexivity].
     f_equal. now apply (happly_mm R r0 r1 radd rmul rsub ropp Rth 3 3 3); [apply HG| |].
   Qed.
 End Proofs2.
